@@ -22,6 +22,9 @@ type Val struct {
 	S     string
 	N     float64
 	B     bool
+	// RawKeys[i]: emit Keys[i] unquoted in YAML, i.e. as whatever scalar type
+	// YAML resolves it to (1, true, ~): a mapping key that is not a string
+	RawKeys []bool
 }
 
 func vs(s string) *Val  { return &Val{K: 's', S: s} }
@@ -33,6 +36,7 @@ func (v *Val) clone() *Val {
 	}
 	c := *v
 	c.Keys = append([]string(nil), v.Keys...)
+	c.RawKeys = append([]bool(nil), v.RawKeys...)
 	c.Vals = make([]*Val, len(v.Vals))
 	for i, x := range v.Vals {
 		c.Vals[i] = x.clone()
@@ -180,7 +184,11 @@ func (v *Val) writeYAML(b *strings.Builder, depth int, inline bool) {
 		}
 		for i, k := range v.Keys {
 			b.WriteString(ind)
-			b.WriteString(jsonStr(k))
+			if i < len(v.RawKeys) && v.RawKeys[i] {
+				b.WriteString(k)
+			} else {
+				b.WriteString(jsonStr(k))
+			}
 			b.WriteString(": ")
 			v.Vals[i].writeYAML(b, depth+1, true)
 		}
@@ -480,7 +488,7 @@ func genScalar(c *Chooser, g GenCfg) *Val {
 			return vn([]float64{math.Inf(1), math.Inf(-1), math.NaN()}[c.Int(3)])
 		}
 		if g.Fractions && c.Chance(1, 3) {
-			return vn([]float64{0.5, 1.25, -2.75, 1e-7, 3.0000001, 1e21, -0.1}[c.Int(7)])
+			return vn([]float64{0.5, 1.25, -2.75, 1e-7, 3.0000001, 1e21, -0.1, 18446744073709551615, 9.3e18, -1e19, 4294967296, 1e15 + 0.5}[c.Int(12)])
 		}
 		return vn(float64(c.Range(-2, 9)))
 	case 1:
